@@ -668,7 +668,7 @@ func ConcPaths(fn *ssa.Function, cfg ConcCfg) (seqs []string, truncated bool) {
 						st = st.clone()
 						st.mem[x] = z
 					}
-				} else if stt, ok := types.Unalias(deref(x.Type())).Underlying().(*types.Struct); ok && cfg.MaxIter > 0 {
+				} else if stt, ok := types.Unalias(deref(x.Type())).Underlying().(*types.Struct); ok {
 					// a fresh struct: its boolean and integer fields start at zero (a later store overrides)
 					base := strings.TrimSuffix(addrKey(st, x), ".")
 					cloned := false
@@ -695,6 +695,20 @@ func ConcPaths(fn *ssa.Function, cfg ConcCfg) (seqs []string, truncated bool) {
 						st.mem[a] = nx
 					} else {
 						st.mem[a] = x.Val
+					}
+				} else if al, isAl := x.Addr.(*ssa.Alloc); isAl && (len(st.fmem) > 0 || len(st.fvals) > 0) {
+					// the whole variable is overwritten: what was known about its fields is gone
+					pre := strings.TrimSuffix(addrKey(st, al), ".") + "."
+					st = st.clone()
+					for k := range st.fmem {
+						if strings.HasPrefix(k, pre) {
+							delete(st.fmem, k)
+						}
+					}
+					for k := range st.fvals {
+						if strings.HasPrefix(k, pre) {
+							delete(st.fvals, k)
+						}
 					}
 				} else if _, isFA := x.Addr.(*ssa.FieldAddr); isFA {
 					ad := addrKey(st, x.Addr)
@@ -1381,4 +1395,30 @@ func addrKey(st *ConcState, addr ssa.Value) string {
 func baseKey(st *ConcState, v ssa.Value) string {
 	k := addrKey(st, v)
 	return strings.TrimSuffix(k, ".")
+}
+
+
+// FieldOf reports what field `field` of the struct that obj denotes (an allocation, or a load of one) holds on this
+// path: an evident integer/boolean, or the value last stored (nil if nothing is known).
+func (st *ConcState) FieldOf(obj ssa.Value, field string) (k int64, isInt bool, val ssa.Value) {
+	v := obj
+	for i := 0; i < 8; i++ {
+		if u, ok := v.(*ssa.UnOp); ok && u.Op == token.MUL {
+			v = u.X
+			continue
+		}
+		if nx := st.alias[v]; nx != nil {
+			v = nx
+			continue
+		}
+		break
+	}
+	key := strings.TrimSuffix(addrKey(st, v), ".") + "." + field
+	if n, ok := st.fmem[key]; ok {
+		return n, true, nil
+	}
+	if fv, ok := st.fvals[key]; ok {
+		return 0, false, fv
+	}
+	return 0, false, nil
 }
